@@ -600,16 +600,76 @@ pub fn check_code(code: &[u8], permissive: bool, shuffles: &[u64], naturals: usi
     orders.push(OrderSpec::Reverse);
     orders.push(OrderSpec::Sorted);
     orders.extend(shuffles.iter().map(|s| OrderSpec::Shuffle(*s)));
-    // programs that contain one of the known order-dependent evidence families are excluded by
-    // construction (and counted): they would end the search at the same finding over and over
+    // programs that contain one of the known order-dependent evidence families are taken out of the
+    // layout-equality comparison by construction (and counted): they would end the search at the same
+    // finding over and over; they get the weaker comparison below
     let causes = diagnose(code, &cfg);
     let known_here: Vec<&String> = causes
         .iter()
         .filter(|c| KNOWN.with(|k| k.borrow().contains(&format!("the result depends on the iteration order; order-dependent evidence: {c}"))))
         .collect();
     if !known_here.is_empty() && !strict {
-        acc.excluded("excluded_known_order_dependent_evidence");
+        acc.excluded("weak_comparison_only_known_order_dependent_evidence");
         acc.count(&format!("known-family {}", known_here[0]), 1);
+        // The known families make the *types* at the slots they touch order-dependent, and with them
+        // whether unification reaches a fixed point at all (UnificationIncomplete in some orders, with
+        // differing round counts). What they do not explain is a different set of reported slots between
+        // two successful runs, or an error from an earlier stage in one order only: those are still
+        // compared for these programs (a weaker oracle than layout equality, but not none).
+        #[derive(PartialEq, Debug)]
+        enum Weak {
+            Slots(Vec<String>),
+            EarlierError(Vec<String>),
+        }
+        let project = |o: &Outcome| -> Option<Weak> {
+            match o {
+                Outcome::Ok(v) => {
+                    let mut s: Vec<String> = v.iter().map(|(i, _, _)| format!("{i:?}")).collect();
+                    s.sort();
+                    s.dedup();
+                    Some(Weak::Slots(s))
+                }
+                Outcome::Err(e) if e.iter().all(|(k, _)| k.starts_with("Unification::")) => None,
+                Outcome::Err(e) => {
+                    let mut k: Vec<String> = e.iter().map(|(k, l)| format!("{k}@{l}")).collect();
+                    k.sort();
+                    Some(Weak::EarlierError(k))
+                }
+                Outcome::Skipped => None,
+            }
+        };
+        let mut reference: Option<(Weak, Outcome, OrderSpec)> = None;
+        for o in orders.iter() {
+            let (out, _) = run_once(code, &cfg, *o, acc);
+            if out == Outcome::Skipped {
+                return CaseResult::Pass;
+            }
+            let Some(po) = project(&out) else {
+                acc.count("weak comparison: run ended in a unification error (tolerated, known family)", 1);
+                continue;
+            };
+            acc.count("analyses (weak comparison)", 1);
+            match &reference {
+                None => reference = Some((po, out, *o)),
+                Some((pf, first, fo)) if *pf != po => {
+                    let sig = match (pf, &po) {
+                        (Weak::Slots(_), Weak::Slots(_)) => {
+                            "the set of reported slots depends on the iteration order in a program with known order-dependent evidence"
+                        }
+                        _ => "an error from before unification depends on the iteration order in a program with known order-dependent evidence",
+                    };
+                    return fail(
+                        sig.to_string(),
+                        format!(
+                            "order {} gave {:?}\norder {} gave {:?}\nknown order-dependent evidence here: {:?}",
+                            order_name(*o), out, order_name(*fo), first, known_here
+                        ),
+                    );
+                }
+                _ => {}
+            }
+        }
+        acc.label("weak-comparison (known order-dependent evidence present)");
         return CaseResult::Pass;
     }
     let (first, mut folded3) = run_once(code, &cfg, orders[0], acc);
